@@ -3,7 +3,6 @@ use std::cell::Cell;
 use std::collections::BTreeSet;
 
 use hydro_lang::live_collections::stream::{ExactlyOnce, NoOrder, TotalOrder};
-use hydro_lang::location::Location;
 use hydro_lang::prelude::*;
 use hydro_lang::sim::{SimReceiver, SimSender};
 use hydro_test::tutorials as tut;
@@ -17,10 +16,9 @@ type Rx<T> = SimReceiver<T, TotalOrder, ExactlyOnce>;
 
 /// Unordered outputs are observed one element at a time through an ordering observation, so
 /// the body can react to each acknowledgement individually.
-fn ordered<'a, T, L>(s: Stream<T, L, Unbounded, NoOrder>) -> Rx<T>
+fn ordered<'a, T, PT>(s: Stream<T, Process<'a, PT>, Unbounded, NoOrder>) -> Rx<T>
 where
     T: serde::Serialize + serde::de::DeserializeOwned + 'a,
-    L: Location<'a>,
 {
     s.assume_ordering::<TotalOrder>(nondet!(/** verif harness: outputs are read one at a time */)).sim_output()
 }
@@ -279,8 +277,13 @@ fn run_prog<C: Counter>(
         {
             continue;
         }
+        // the adapters hold Cells; nothing of them is observed after a panic
+        let cw = std::panic::AssertUnwindSafe(c);
+        let resetw = std::panic::AssertUnwindSafe(reset);
         let mut run = || {
             let r = exhaustive(sim, async || {
+                let c: &C = &cw;
+                let reset: &dyn Fn() = *std::ops::Deref::deref(&resetw);
                 reset();
                 let obs = match body {
                     "seq" => body_seq(c, &incs, false).await,
